@@ -1,7 +1,8 @@
 /- Driver ops for C08 (fit statistics and evidence).
    Rational outputs (maps, chi-squared, regularization term, reduced matrices) are evaluated on `Rat`
-   (exact); outputs containing `log` are evaluated on `Float` with `Float.log`, `2π` and a pivot-product
-   log-determinant standing in for numpy's Cholesky / SuperLU. -/
+   (exact); outputs containing `log` are evaluated on `Float` with `Float.log`, `2π`, and the model's
+   `logDetViaCholesky` / `logDetViaLU` formulas with a Float Cholesky / LU factorisation standing in for
+   numpy.linalg.cholesky / SuperLU. -/
 import Driver.Loop
 import Model.Fit
 
@@ -12,25 +13,44 @@ namespace Driver.C08
 
 def twoPiF : Float := 2.0 * 3.141592653589793
 
-/-- log-determinant of a symmetric positive-definite matrix: sum of the logs of the pivots of
-    Gaussian elimination without pivoting (= 2·Σ log diag(chol A)).  Driver-side instantiation of the
-    model's `logDet` parameter. -/
-def logDetF (M : List (List Float)) : Float := Id.run do
+/-- Cholesky–Banachiewicz factor (lower-triangular `L`, `L·Lᵀ = M`) of a symmetric positive-definite
+    matrix: the driver-side instance of the model's `chol` parameter (numpy.linalg.cholesky). -/
+def cholF (M : List (List Float)) : List (List Float) := Id.run do
   let n := M.length
-  let mut a : Array (Array Float) := (M.map (·.toArray)).toArray
-  let mut acc : Float := 0.0
+  let a : Array (Array Float) := (M.map (·.toArray)).toArray
+  let mut L : Array (Array Float) := Array.replicate n (Array.replicate n 0.0)
+  for i in [0:n] do
+    for j in [0:i+1] do
+      let mut s : Float := 0.0
+      for k in [0:j] do
+        s := s + L[i]![k]! * L[j]![k]!
+      if i == j then
+        L := L.set! i (L[i]!.set! j (Float.sqrt (a[i]![i]! - s)))
+      else
+        L := L.set! i (L[i]!.set! j ((a[i]![j]! - s) / L[j]![j]!))
+  return (L.map (·.toList)).toList
+
+/-- Doolittle LU without pivoting (`L` unit lower-triangular, `U` upper-triangular, `L·U = M`): the
+    driver-side instance of the model's `lu` parameter (SuperLU with identity permutations). -/
+def luF (M : List (List Float)) : List (List Float) × List (List Float) := Id.run do
+  let n := M.length
+  let mut U : Array (Array Float) := (M.map (·.toArray)).toArray
+  let mut L : Array (Array Float) := Array.replicate n (Array.replicate n 0.0)
+  for i in [0:n] do
+    L := L.set! i (L[i]!.set! i 1.0)
   for k in [0:n] do
-    let rowk := a[k]!
+    let rowk := U[k]!
     let p := rowk[k]!
-    acc := acc + Float.log p
     for i in [k+1:n] do
-      let rowi := a[i]!
+      let rowi := U[i]!
       let f := rowi[k]! / p
+      L := L.set! i (L[i]!.set! k f)
       let mut r := rowi
       for j in [k:n] do
         r := r.set! j (rowi[j]! - f * rowk[j]!)
-      a := a.set! i r
-  return acc
+      r := r.set! k 0.0
+      U := U.set! i r
+  return ((L.map (·.toList)).toList, (U.map (·.toList)).toList)
 
 def getObj (j : Json) : Except String (LinObj Rat) := do
   let p ← getNat (← field j "params")
@@ -111,7 +131,7 @@ def fit : Op := fun j => do
     let objsF := objs.map objToFloat
     let FF := F.map fun r => r.map ratToFloat
     let sF := s.map ratToFloat
-    let tF : InvTerms Float := invTerms logDetF FF sF objsF
+    let tF : InvTerms Float := invTermsViaFactorisations Float.log Float.abs cholF luF FF sF objsF
     let invOut := obj
       [("no_regularization_index_list", natsToJson (noRegularizationIndexList objs)),
        ("regularization_matrix", ratMatToJson (regularizationMatrix objs)),
